@@ -197,6 +197,22 @@ class Lib:
                 items = [Val(("tuple", STR, ("ctype",)), (e.const_val("_" + f), Val(("ctype",), None, conc=(k, m))))
                          for f, k, m in d.cinfo["fields"]]
                 return [(st, Val(("conclist",), items))]
+        # the attribute may belong to the dynamic class (after an isinstance test): dispatch on dtype
+        cands = [c for c in e.subclasses_of(base.t[1]) if c != base.t[1] and e.field_decl(c, attr) is not None]
+        out = []
+        for c in sorted(cands):
+            cond = e.dtype_fn(base.z) == e.class_id(c)
+            if e.feasible(st, cond):
+                s2 = st.fork()
+                s2.assume(cond)
+                out.extend(e.get_attr(Val(ref(c), base.z), attr, s2, node))
+        if out:
+            rest = st.fork()
+            for c in cands:
+                rest.assume(e.dtype_fn(base.z) != e.class_id(c))
+            if e.feasible(rest):
+                out.append((rest, Exc("AttributeError", f"{base.t[1]}.{attr}", getattr(node, "lineno", 0))))
+            return out
         raise Unsupported(f"attribute {base.t[1]}.{attr} is not declared in the class model", node, e.path)
 
     def class_attr(self, cname, attr, st, node):
